@@ -1,6 +1,6 @@
 (* C25: the hypotheses of the theorems are met by concrete non-trivial inputs (Gaussian-integer
    entries), and the model computes the expected results on them (evaluated by the kernel). *)
-From SE Require Import C25.CsrInst C25.CsrTranspose C25.CsrFromCoo C25.CsrMatmat.
+From SE Require Import C25.CsrInst C25.CsrTranspose C25.CsrFromCoo.
 Local Open Scope N_scope.
 
 (* the element laws assumed by the theorems hold for the instance that is extracted and run *)
@@ -76,26 +76,34 @@ Proof.
   intros i Hi. change (lenN _) with 2 in Hi. assert (i = 0 \/ i = 1) as [->| ->] by lia; reflexivity.
 Qed.
 
-(* the guards of the guarded theorems are satisfiable by non-trivial inputs *)
-Definition U2 : csr gi := Build_csr [0; 2; 3] [0; 1; 1] [g 1; g 2; g 3] 2 2.
-Example C25_diag_present_example :
-  Inv U2 /\ diag_present U2 /\ diagonal gi_ops U2 = Ok [g 1; g 3].
-Proof.
-  split; [apply inv_b_sound; vm_compute; reflexivity|]. split; [|vm_compute; reflexivity].
-  intros i Hi. change (N.min _ _) with 2 in Hi.
-  assert (i = 0 \/ i = 1) as [->| ->] by lia; [exists 0|exists 2]; vm_compute; repeat split; congruence.
-Qed.
-
-Example C25_matmat_guard_example :
-  Inv W_mmA2 /\ Inv W_mmB2 /\ ccol W_mmA2 = crow W_mmB2 /\ ccol W_mmB2 <= ccol W_mmA2 /\
-  crow W_mmA2 * ccol W_mmB2 < 2 ^ 31 /\
-  matmat gi_ops W_mmA2 W_mmB2 = Ok (Build_csr [0; 2; 4] [1; 0; 1; 0] [g 6; g 5; g 5; g 5] 2 2).
+(* conjugate on a non-square matrix, csr_diagonal with empty rows and missing diagonal entries,
+   csr_matmat with B wider than A: hypotheses of the (now unconditional) theorems, and results *)
+Example C25_conjugate_diagonal_example :
+  Inv W_conj /\ Inv W_diag2 /\
+  conjugate gi_ops W_conj = Build_csr [0; 1] [1] [(1, -2)%Z] 1 2 /\
+  diagonal gi_ops W_diag2 = Ok [g 0] /\ diagonal gi_ops M3 = Ok [g 1; g 0; g 6].
 Proof.
   split; [apply inv_b_sound; vm_compute; reflexivity|].
   split; [apply inv_b_sound; vm_compute; reflexivity|].
-  vm_compute. repeat split; try reflexivity; discriminate.
+  vm_compute. repeat split; reflexivity.
 Qed.
 
-Example C25_conjugate_square_example :
-  Inv U2 /\ crow U2 = ccol U2.
-Proof. split; [apply inv_b_sound; vm_compute; reflexivity|reflexivity]. Qed.
+Example C25_matmat_example :
+  Inv W_mmA1 /\ Inv W_mmB1 /\ ccol W_mmA1 = crow W_mmB1 /\ crow W_mmA1 * ccol W_mmB1 < 2 ^ 31 /\
+  matmat gi_ops W_mmA1 W_mmB1 = Ok (Build_csr [0; 2; 4] [0; 2; 0; 2] [g 3; g 4; g 6; g 8] 2 3) /\
+  Inv W_mmA2 /\ Inv W_mmB2 /\
+  matmat gi_ops W_mmA2 W_mmB2 = Ok (Build_csr [0; 2; 4] [0; 1; 0; 1] [g 5; g 6; g 5; g 5] 2 2).
+Proof.
+  split; [apply inv_b_sound; vm_compute; reflexivity|].
+  split; [apply inv_b_sound; vm_compute; reflexivity|].
+  split; [reflexivity|]. split; [vm_compute; reflexivity|]. split; [vm_compute; reflexivity|].
+  split; [apply inv_b_sound; vm_compute; reflexivity|].
+  split; [apply inv_b_sound; vm_compute; reflexivity|].
+  vm_compute. reflexivity.
+Qed.
+
+(* is_canonical rejects non-monotone row pointers even when nothing is stored *)
+Example C25_is_canonical_example :
+  is_canonical M3 = Ok true /\ is_canonical W_canon = Ok false /\
+  is_canonical (Build_csr [0; 2] [1; 1] [g 1; g 2] 1 2) = Ok false.
+Proof. vm_compute. repeat split; reflexivity. Qed.
